@@ -143,9 +143,8 @@ def abs (x : Q) : Q := ⟨(x.num.natAbs : Int), x.den⟩
 def signum (x : Q) : Q := ⟨x.num.sign, 1⟩
 def mulSign (x : Q) (negative : Bool) : Q := ⟨if negative then -x.num else x.num, x.den⟩
 
-/-- `Inverse for Repr` (div.rs).  REQUIRED behaviour (C04: "division by zero panics"): the inverse
-    of zero is a `DivideByZero` panic.  The code at the pinned commit has no such test and returns
-    the pair 1/0 (finding `ratio-inv-zero`); for every non-zero input this is the code's body. -/
+/-- `Inverse for Repr` (div.rs): zero test (`panic_divide_by_0`, present since fix commit 8dae589;
+    before it the code returned the pair 1/0), then swap with the sign moved to the numerator. -/
 def inv (x : Q) : Except PanicKind Q :=
   if x.num = 0 then .error .divideByZero
   else .ok ⟨sgn x.num * x.den, x.num.natAbs⟩
